@@ -1,6 +1,7 @@
 SPECIFICATION TraceSpec
-CONSTANTS Clients <- TrClients
-  RawKeys <- TrKeys
+CONSTANTS Clients = {CLIENTS}
+  RawKeys = {KEYS}
+  NTraces = {NTRACES}
   CacheKeys = {}
   Atoms = {}
   SetLists <- TrNone
